@@ -7,7 +7,7 @@
    [step] over any choice of thread).  [misuse g = false] restricts to executions in which
    the callers kept the API contract (see ASSUMPTIONS in props/C10.py). *)
 From Coq Require Import ZArith List.
-From CV Require Import Cap.Cap Cap.CapInv Cap.CapProofs Cap.CapRefuted.
+From CV Require Import Cap.Cap Cap.CapInv Cap.CapProofs Cap.CapWf Cap.CapLive Cap.CapTerm Cap.CapRefuted.
 Open Scope Z_scope.
 
 (* the inductive invariant (reference accounting, call accounting, done/shutdown protocol,
@@ -36,12 +36,32 @@ Theorem C10_null_released_error : null_released_error_stmt.
 Proof. exact null_released_error. Qed.
 Print Assumptions C10_null_released_error.
 
-(* deadlock freedom: proved for configurations with no Fulfill inside its transfer walk and
-   under the well-formedness hypothesis [ids_ok]; the full statement is [no_stuck_stmt] in
-   coq/Cap/CapInv.v (not yet proved) *)
-Theorem C10_no_stuck_partial : no_stuck_partial_stmt.
-Proof. exact no_stuck_partial. Qed.
-Print Assumptions C10_no_stuck_partial.
+(* well-formedness of ids and acyclicity of the resolution graph are invariants *)
+Theorem C10_ids_wf : forall fixed progs g, reachable fixed (init progs) g -> WF g.
+Proof. exact reachable_wf. Qed.
+Print Assumptions C10_ids_wf.
+
+Theorem C10_acyclic : forall progs g, reachable true (init progs) g -> misuse g = false -> Acyc g.
+Proof. exact reachable_acyc. Qed.
+Print Assumptions C10_acyclic.
+
+(* deadlock freedom: every reachable configuration of a contract-respecting execution with an
+   unfinished thread has an enabled step (for a thread inside a call-out: the application's
+   return) *)
+Theorem C10_no_stuck : no_stuck_stmt.
+Proof. exact no_stuck. Qed.
+Print Assumptions C10_no_stuck.
+
+(* termination: the step relation is well-founded on reachable contract-respecting
+   configurations (no infinite execution, in particular no API call whose own steps go on
+   forever), and the per-thread measure of a call's own steps *)
+Theorem C10_terminates : terminates_stmt.
+Proof. exact terminates. Qed.
+Print Assumptions C10_terminates.
+
+Theorem C10_own_steps_decrease : own_steps_decrease_stmt.
+Proof. exact own_steps_decrease. Qed.
+Print Assumptions C10_own_steps_decrease.
 
 (* the code as found violates the property (model variant fixed = false) *)
 Theorem C10_prefix_refuted :
